@@ -554,11 +554,136 @@ func (e *c05Env) elementEntries(r *rand.Rand, x []byte, wo wire.Options) {
 	}
 }
 
+// elementCase builds one valid attribute / NLRI / capability, mutates its octets and feeds it
+// to the element decoder and, wrapped in an otherwise minimal message, to the message decoders.
+func (e *c05Env) elementCase(r *rand.Rand) {
+	o := e.o
+	mutate := func(b []byte) []byte {
+		for k := r.IntN(3); k > 0; k-- {
+			b = vgenMutateValue(r, b)
+		}
+		return b
+	}
+	guard := func(f func()) (ok bool) {
+		defer func() {
+			if recover() != nil {
+				ok = false
+			}
+		}()
+		f()
+		return true
+	}
+	switch r.IntN(3) {
+	case 0:
+		e.class = "element-attr"
+		var sb []byte
+		if !guard(func() {
+			var tags []string
+			c := &vgenAttrCtx{o: o, big: vgenChance(r, 10), tags: &tags}
+			var a PathAttributeInterface
+			switch r.IntN(8) {
+			case 0:
+				a = vgenMpReach(r, vgenFamily(r), c)
+			case 1:
+				a = vgenMpUnreach(r, vgenFamily(r), c)
+			default:
+				a = vgenAttr(r, vgenSimpleAttrTypes[r.IntN(len(vgenSimpleAttrTypes))], c)
+			}
+			if !vgenIsNilIface(a) {
+				sb, _ = a.Serialize(o.Ser...)
+			}
+		}) || len(sb) < 3 {
+			return
+		}
+		as, err := wire.ParseAttrs(sb, 0)
+		if err != nil || len(as) != 1 {
+			return
+		}
+		var ab []byte
+		if vgenChance(r, 5) {
+			ab = mutate(sb)
+		} else {
+			ab = vgenAttrBytes(as[0].Flags, as[0].Type, mutate(as[0].Value), as[0].HdrLen == 4 && vgenBool(r))
+		}
+		e.attrEntry(r, ab)
+		attrs := [][]byte{ab}
+		if vgenBool(r) {
+			attrs = [][]byte{{0x40, 1, 1, 0}, {0x40, 2, 0}, ab}
+		}
+		e.messageEntries(r, vgenRebuildUpdate(nil, attrs, nil))
+	case 1:
+		e.class = "element-nlri"
+		f := vgenFamily(r)
+		var sb []byte
+		if !guard(func() {
+			n := vgenNLRI(r, f, &vgenNLRICtx{withdraw: vgenChance(r, 4)})
+			if !vgenIsNilIface(n) {
+				sb, _ = n.Serialize(o.Ser...)
+			}
+		}) || len(sb) == 0 {
+			return
+		}
+		mb := mutate(sb)
+		if vgenChance(r, 4) {
+			mb = append(mb, sb...) // followed by a second, valid element
+		}
+		if o.addPath(f) {
+			mb = append([]byte{0, 0, 0, byte(r.IntN(3))}, mb...)
+			e.nlriEntry(r, f, mb[4:])
+		} else {
+			e.nlriEntry(r, f, mb)
+		}
+		var v []byte
+		var typ uint8 = wire.AttrMPReach
+		if vgenChance(r, 3) {
+			typ = wire.AttrMPUnrch
+			v = []byte{byte(f.Afi() >> 8), byte(f.Afi()), f.Safi()}
+		} else {
+			nh := []byte{10, 0, 0, 1}
+			switch {
+			case f.Safi() == SAFI_FLOW_SPEC_UNICAST || f.Safi() == SAFI_FLOW_SPEC_VPN:
+				nh = nil
+			case f.Safi() == SAFI_MPLS_VPN:
+				nh = append(make([]byte, 8), nh...)
+			}
+			v = append([]byte{byte(f.Afi() >> 8), byte(f.Afi()), f.Safi(), byte(len(nh))}, nh...)
+			v = append(v, 0)
+		}
+		v = append(v, mb...)
+		e.messageEntries(r, vgenRebuildUpdate(nil, [][]byte{vgenAttrBytes(0x80, typ, v, vgenChance(r, 4))}, nil))
+	default:
+		e.class = "element-cap"
+		var sb []byte
+		if !guard(func() { sb, _ = vgenCapability(r, 253).Serialize() }) || len(sb) < 2 {
+			return
+		}
+		var cb []byte
+		if vgenChance(r, 4) {
+			cb = mutate(sb)
+		} else {
+			val := mutate(sb[2:])
+			if len(val) > 251 {
+				val = val[:251]
+			}
+			cb = append([]byte{sb[0], byte(len(val))}, val...)
+		}
+		e.capEntry(cb)
+		if len(cb) <= 253 {
+			body := []byte{4, 0xfd, 0xe8, 0, 90, 10, 0, 0, 1, byte(len(cb) + 2), 2, byte(len(cb))}
+			e.messageEntries(r, vgenHeader(wire.MsgOpen, append(body, cb...)))
+		}
+	}
+}
+
 func c05Case(rec *vlib.Rec, idx int, shared bool) {
 	r := vlib.CaseRand("c05", idx)
 	o := vgenOptions(r, true)
 	e := &c05Env{rec: rec, idx: idx, o: o, shared: shared}
 	wo := vgenWireOpt(o)
+	if vgenChance(r, 3) {
+		e.elementCase(r)
+		return
+	}
 	var x []byte
 	if vgenChance(r, 6) {
 		e.class = "random"
@@ -616,7 +741,7 @@ func c05Case(rec *vlib.Rec, idx int, shared bool) {
 func TestVerifC05(t *testing.T) {
 	rec := vlib.Open("C05")
 	defer rec.Close()
-	total := vlib.Scale(140000, 2400000)
+	total := vlib.Scale(240000, 3600000)
 	shared := false
 	if s := os.Getenv("VERIF_C05_RACE"); s != "" {
 		// the race-detector build runs a slice of the same case list (it also turns on checkptr)
